@@ -5,7 +5,7 @@
 // item<T> / node::create, traits-initialised).  Every pair of canonical
 // pre-states (A content, B content) is an initial state; every operation
 // instance of the alphabet is executed on the real code from each, compared
-// with a (charset, std::string) reference, and the observable state (header,
+// with a (charset, byte string) reference, and the observable state (header,
 // data, all comparison entry points, allocation ledger, ASan) is re-read after
 // every step.  Post-states whose raw storage image differs from every initial
 // state (stale inline bytes after copy, non-text content, ...) are expanded
@@ -129,31 +129,54 @@ static void destroy(H &h)
 
 // ------------------------------------------------------------------ contents
 static const int UTF8 = 1;   // MPT_CHARSET(UTF8)
-struct M { int cs; std::string b; bool operator==(const M &o) const { return cs == o.cs && b == o.b; } };
-static const std::string &pattern()
+// families of byte strings: P(len) prefix-closed pattern, Q(len) = P with another last byte, N(len) = P with an
+// embedded NUL, Z(n) = n zero bytes (what set(NULL,n) stores).  Stored bytes of a text = text + NUL.
+enum Fam { FP, FQ, FN, FZ };
+struct Bytes { std::string stored; char *arg; size_t arglen; Bytes() : arg(0), arglen(0) {} };   // arg: exactly sized malloc'd copy of the text (plus NUL for the strlen form)
+static std::map<std::pair<int, size_t>, Bytes> &pool() { static std::map<std::pair<int, size_t>, Bytes> p; return p; }
+static const Bytes &bytes(int fam, size_t len)
 {
-	static std::string p;
-	if (p.empty()) { p.resize(70001); for (size_t i = 0; i < p.size(); ++i) p[i] = (char) (1 + (i * 31 + 7) % 253); }   // 1..253, prefix closed
-	return p;
+	std::pair<int, size_t> k(fam, len);
+	auto it = pool().find(k);
+	if (it != pool().end()) return it->second;
+	Bytes &b = pool()[k];
+	if (fam == FZ) b.stored.assign(len, 0);
+	else {
+		b.stored.resize(len + 1);
+		for (size_t i = 0; i < len; ++i) b.stored[i] = (char) (1 + (i * 31 + 7) % 253);    // 1..253
+		if (fam == FQ && len) b.stored[len - 1] = (char) 0xFE;
+		if (fam == FN && len) b.stored[len / 2] = 0;
+		b.stored[len] = 0;
+		b.arglen = len;
+		b.arg = (char *) malloc(len ? len : 1); memcpy(b.arg, b.stored.data(), len);
+	}
+	return b;
 }
-static std::string text(size_t len, int variant)   // 0: P(len)  1: Q(len) = P with another last byte  2: N(len) = P with an embedded NUL
-{
-	std::string s(pattern(), 0, len);
-	if (variant == 1 && len) s[len - 1] = (char) 0xFE;
-	if (variant == 2 && len) s[len / 2] = 0;
-	return s;
-}
-struct Content { bool unset; size_t len; int variant; };
-static M model_of(const Content &c) { M m; if (c.unset) { m.cs = 0; } else { m.cs = UTF8; m.b = text(c.len, c.variant); m.b.push_back(0); } return m; }
+static const std::string empty_bytes;
+struct M {
+	int cs; const std::string *b; int cid;     // cid: index into the job's contents table when the content is one of them
+	M() : cs(0), b(&empty_bytes), cid(0) {}
+	size_t size() const { return b->size(); }
+	bool operator==(const M &o) const { return cs == o.cs && (b == o.b || *b == *o.b); }
+};
+struct Content { bool unset; size_t len; int fam; };
 
 enum OpT { SET, SETZ, SETNUL, SETOVER, SETNULL, COPY_AB, COPY_BA, COPY_AA, COPY_ANULL, ASSIGN_AB, SELF, CLONE_TRAITS, CLONE_CXX };
+static const char *opname[] = { "set", "set(strlen)", "set(embedded NUL)", "set(over-long)", "set(NULL,n)", "copy", "copy", "copy(self)", "copy(NULL)", "operator=", "set(own data)", "traits-init(copy)", "copy-constructor" };
 struct OpInst { int t; long a; };
 
 struct Alphabet {
-	std::vector<Content> contents;
+	std::vector<Content> contents;     // [0] = unset
 	std::vector<OpInst> ops;
-	std::set<std::string> knownA, knownB;    // raw storage images of the initial states
+	std::vector<uint64_t> knownA, knownB;    // per content: image (header + inline bytes) of the initial state
+	int find(int fam, size_t len) const { for (size_t i = 1; i < contents.size(); ++i) if (contents[i].fam == fam && contents[i].len == len) return (int) i; return -1; }
 };
+static M model_of(const Alphabet &al, int cid)
+{
+	M m; m.cid = cid;
+	if (cid > 0) { m.cs = UTF8; m.b = &bytes(al.contents[cid].fam, al.contents[cid].len).stored; }
+	return m;
+}
 
 static void add(std::vector<size_t> &v, long x) { if (x >= 0 && x <= 65534 && std::find(v.begin(), v.end(), (size_t) x) == v.end()) v.push_back((size_t) x); }
 static void build_alphabet(Tier t, size_t capA, size_t capB, Alphabet &al)
@@ -168,12 +191,12 @@ static void build_alphabet(Tier t, size_t capA, size_t capB, Alphabet &al)
 	}
 	std::sort(L.begin(), L.end());
 	al.contents.clear(); al.ops.clear();
-	al.contents.push_back(Content{true, 0, 0});
-	for (size_t l : L) al.contents.push_back(Content{false, l, 0});
+	al.contents.push_back(Content{true, 0, FP});
+	for (size_t l : L) al.contents.push_back(Content{false, l, FP});
 	std::vector<size_t> Q;
 	for (long x : {1L, 5L, (long) capA, 65534L}) add(Q, x);
 	if (t == Thorough) { add(Q, (long) capA - 1); add(Q, 12); }
-	for (size_t l : Q) al.contents.push_back(Content{false, l, 1});
+	for (size_t l : Q) al.contents.push_back(Content{false, l, FQ});
 	for (size_t i = 1; i < al.contents.size(); ++i) al.ops.push_back(OpInst{SET, (long) i});
 	for (long l : {0L, (long) capA - 1, 65534L}) al.ops.push_back(OpInst{SETZ, l});
 	if (t == Thorough) for (long l : {(long) capA, 300L}) al.ops.push_back(OpInst{SETZ, l});
@@ -190,7 +213,7 @@ static void build_alphabet(Tier t, size_t capA, size_t capB, Alphabet &al)
 }
 
 // ------------------------------------------------------------------ observation helpers
-static const char *stclass(const M &m, size_t cap) { return m.b.empty() ? "unset" : (m.b.size() <= cap ? "inline" : "ext"); }
+static const char *stclass(size_t n, size_t cap) { return n == 0 ? "unset" : (n <= cap ? "inline" : "ext"); }
 static const char *lencls(size_t n, size_t cap) { return n == 0 ? "len=0" : (n <= 4 ? "len<=4" : (n <= cap ? "len<=cap" : "len>cap")); }
 
 static uint64_t fasthash(const void *p, size_t n)
@@ -200,18 +223,15 @@ static uint64_t fasthash(const void *p, size_t n)
 	uint64_t w = 0; memcpy(&w, b, n); h = (h ^ w) * 0xc4ceb9fe1a85ec53ULL; h ^= h >> 32;
 	return h;
 }
-// raw image of the identifier storage (pointer bytes masked) + external content
-static std::string rawimage(const mpt::identifier *id)
+// image of the identifier storage: header + all inline bytes, the bytes holding the address of an external block masked.
+// (external content is compared with the model byte by byte by light())
+static uint64_t image(const mpt::identifier *id)
 {
-	std::string s((const char *) id, 4 + (size_t) id->_max);
-	bool ext = id->_len > id->_max;
-	if (ext) {
-		for (size_t i = 4; i < 12 && i < id->_max; ++i) s[4 + i] = 'P';
-		uint64_t h = 0xBADBADBADBADULL;
-		if (id->_base && ledger_is_live(id->_base)) h = fasthash(id->_base, id->_len);
-		s.append((const char *) &h, 8);
-	}
-	return s;
+	uint8_t buf[4 + 256];
+	size_t n = 4 + (size_t) id->_max;
+	memcpy(buf, id, n);
+	if (id->_len > id->_max) for (size_t i = 8; i < 16 && i < n; ++i) buf[i] = 'P';
+	return fasthash(buf, n);
 }
 static std::string imgdesc(const mpt::identifier *id)
 {
@@ -221,20 +241,35 @@ static std::string imgdesc(const mpt::identifier *id)
 	return s;
 }
 
-struct Tally { std::map<std::string, uint64_t> c; void operator()(const char *k, uint64_t n = 1) { c[k] += n; } };
+enum Cnt { C_CMP_EQ, C_CMP_NE, C_CMP_NONTEXT, C_CMP_NODE, C_INEQ_EQ, C_INEQ_NE, C_SETNAME, C_REFUSED, C_OWN, C_CLONE_T, C_CLONE_X, C_LONGEST, C_NOT_ENABLED, C_NEW_BOUND, C_EXPANDED, C_NCNT };
+static const char *cntname[] = { "compare:equal", "compare:unequal", "compare:nontext", "compare:node_locate", "inequal:equal", "inequal:different", "via identifier::set_name", "refused:over-long",
+                                 "set:own data", "clone:traits", "clone:c++", "path stored the longest permitted content (65535 bytes)", "op not enabled in this state",
+                                 "new states at the depth bound (not expanded)", "states beyond the initial ones (expanded)" };
+struct Tally {
+	uint64_t c[C_NCNT]; uint64_t path[2][3][3];
+	Tally() { memset(c, 0, sizeof c); memset(path, 0, sizeof path); }
+	void flush(Run &r)
+	{
+		static const char *cl[] = { "unset", "inline", "ext" };
+		for (int i = 0; i < C_NCNT; ++i) if (c[i]) r.count(cntname[i], c[i]);
+		for (int f = 0; f < 2; ++f) for (int a = 0; a < 3; ++a) for (int b = 0; b < 3; ++b) if (path[f][a][b]) r.count(std::string("path ") + (f ? "copy:" : "set:") + cl[a] + "->" + cl[b], path[f][a][b]);
+		memset(c, 0, sizeof c); memset(path, 0, sizeof path);
+	}
+};
+static int clsidx(size_t n, size_t cap) { return n == 0 ? 0 : (n <= cap ? 1 : 2); }
 
 struct Sys {
 	H a, b; M ma, mb; size_t base; size_t l0;
-	Tally tally;
-	Sys() : base(0), l0(0) {}
-	bool init(int ka, int kb) { l0 = ledger_live(); bool ok = make(a, ka) && make(b, kb); base = ledger_live() - l0; ma.cs = mb.cs = 0; ma.b.clear(); mb.b.clear(); return ok; }
+	Tally *tally;
+	Sys(Tally *t) : base(0), l0(0), tally(t) {}
+	bool init(int ka, int kb) { l0 = ledger_live(); bool ok = make(a, ka) && make(b, kb); base = ledger_live() - l0; return ok; }
 	void fini() { destroy(a); destroy(b); }
 
 	// memory oracle: no sanitizer report, exactly the expected number of live library blocks
 	std::string memcheck(size_t extra = 0)
 	{
 		if (asan_error()) return "memory\tAddressSanitizer reported an invalid memory access";
-		size_t want = l0 + base + extra + (ma.b.size() > a.cap) + (mb.b.size() > b.cap);
+		size_t want = l0 + base + extra + (ma.size() > a.cap) + (mb.size() > b.cap);
 		size_t live = ledger_live();
 		if (live != want) return fmt("memory\t%zu library allocations live, expected %zu (%s)", live - l0, want - l0, live > want ? "leak" : "a block that is still needed was released");
 		return "";
@@ -244,14 +279,14 @@ struct Sys {
 	{
 		const mpt::identifier *id = h.id;
 		if (id->_max != h.cap) return fmt("content\t%s: capacity field changed from %zu to %u", who, h.cap, (unsigned) id->_max);
-		if (id->_len != m.b.size()) return fmt("content\t%s: stored length %u, expected %zu", who, (unsigned) id->_len, m.b.size());
+		if (id->_len != m.size()) return fmt("content\t%s: stored length %u, expected %zu", who, (unsigned) id->_len, m.size());
 		if (id->_charset != m.cs) return fmt("content\t%s: charset %u, expected %d", who, (unsigned) id->_charset, m.cs);
 		const char *data = (const char *) LIB(mpt::mpt_identifier_data(id));
-		if (m.b.size() <= h.cap) { if (data != id->_val) return fmt("memory\t%s: short content is not reported at the inline bytes", who); }
+		if (m.size() <= h.cap) { if (data != id->_val) return fmt("memory\t%s: short content is not reported at the inline bytes", who); }
 		else if (!data || !ledger_is_live(data)) return fmt("memory\t%s: long content pointer is not a live allocation", who);
-		if (m.b.size() && memcmp(data, m.b.data(), m.b.size())) {
-			size_t i = 0; while (data[i] == m.b[i]) ++i;
-			return fmt("content\t%s: content differs from what was stored at byte %zu of %zu (got %02x, expected %02x)", who, i, m.b.size(), (unsigned) (uint8_t) data[i], (unsigned) (uint8_t) m.b[i]);
+		if (m.size() && memcmp(data, m.b->data(), m.size())) {
+			size_t i = 0; while (data[i] == (*m.b)[i]) ++i;
+			return fmt("content\t%s: content differs from what was stored at byte %zu of %zu (got %02x, expected %02x)", who, i, m.size(), (unsigned) (uint8_t) data[i], (unsigned) (uint8_t) (*m.b)[i]);
 		}
 		if (asan_error()) return fmt("memory\t%s: reading the content back touches invalid memory (AddressSanitizer)", who);
 		return "";
@@ -262,17 +297,17 @@ struct Sys {
 		const mpt::identifier *id = h.id;
 		const char *data = (const char *) mpt::mpt_identifier_data(id);
 		if (m.cs == UTF8) {
-			size_t len = m.b.size() - 1;
+			size_t len = m.size() - 1;
 			// exactly sized argument buffers
-			char *s = (char *) malloc(len + 2); memcpy(s, m.b.data(), len + 1); s[len + 1] = 0;
-			char *ex = (char *) malloc(len ? len : 1); memcpy(ex, m.b.data(), len);
+			char *s = (char *) malloc(len + 2); memcpy(s, m.b->data(), len + 1); s[len + 1] = 0;
+			char *ex = (char *) malloc(len ? len : 1); memcpy(ex, m.b->data(), len);
 			std::string bad;
 			int c;
 			if ((c = LIB(mpt::mpt_identifier_compare(id, ex, (int) len))) != 0) bad = fmt("compare\t%s: compare with the stored text (len %zu) returns %d", who, len, c);
 			else if (!memchr(s, 0, len) && (c = LIB(mpt::mpt_identifier_compare(id, s, -1))) != 0) bad = fmt("compare\t%s: compare(text,-1) with the stored text returns %d", who, c);
 			else if (!LIB(id->equal(ex, (int) len))) bad = fmt("compare\t%s: identifier::equal is false for the stored text", who);
 			else if (LIB(id->name()) != data) bad = fmt("compare\t%s: identifier::name() is not the stored text", who);
-			tally("compare:equal");
+			++tally->c[C_CMP_EQ];
 			if (bad.empty() && len) {
 				ex[len - 1] ^= 0x40;
 				if (LIB(mpt::mpt_identifier_compare(id, ex, (int) len)) == 0) bad = fmt("compare\t%s: text differing in the last byte compares equal (len %zu)", who, len);
@@ -281,13 +316,13 @@ struct Sys {
 				if (bad.empty() && LIB(id->equal(ex, (int) len))) bad = fmt("compare\t%s: identifier::equal is true for different text", who);
 				ex[0] ^= 0x40;
 				if (bad.empty() && LIB(mpt::mpt_identifier_compare(id, ex, (int) len - 1)) == 0) bad = fmt("compare\t%s: proper prefix compares equal (len %zu)", who, len);
-				tally("compare:unequal", 3);
+				tally->c[C_CMP_NE] += 3;
 			}
 			if (bad.empty()) {
 				s[len] = 'x';    // one byte longer
 				if (LIB(mpt::mpt_identifier_compare(id, s, (int) len + 1)) == 0) bad = fmt("compare\t%s: longer text compares equal (len %zu)", who, len);
 				s[len] = 0;
-				tally("compare:unequal");
+				++tally->c[C_CMP_NE];
 			}
 			if (bad.empty() && h.node) {
 				const char *ni = LIB(mpt::mpt_node_ident(h.node));
@@ -299,16 +334,16 @@ struct Sys {
 					ex[len - 1] ^= 0x40;
 					if (bad.empty() && LIB(mpt::mpt_node_locate(h.node, 1, ex, len - 1, -1)) != 0) bad = fmt("compare\t%s: mpt_node_locate matches a proper prefix", who);
 				}
-				tally("compare:node_locate");
+				++tally->c[C_CMP_NODE];
 			}
 			free(s); free(ex);
 			if (!bad.empty()) return bad;
 		} else {
 			// not text: no text compares equal, name() is not offered
 			char one[1] = { 0 };
-			if (LIB(mpt::mpt_identifier_compare(id, one, 0)) == 0 && m.b.size()) return fmt("compare\t%s: non-text content compares equal to the empty text", who);
+			if (LIB(mpt::mpt_identifier_compare(id, one, 0)) == 0 && m.size()) return fmt("compare\t%s: non-text content compares equal to the empty text", who);
 			if (LIB(id->name()) != 0) return fmt("compare\t%s: identifier::name() offered for non-text content", who);
-			tally("compare:nontext");
+			++tally->c[C_CMP_NONTEXT];
 		}
 		if (LIB(mpt::mpt_identifier_inequal(id, id)) != 0) return fmt("compare\t%s: inequal(x,x) != 0", who);
 		if (asan_error()) return fmt("compare\t%s: a comparison reads outside its arguments (AddressSanitizer)", who);
@@ -319,84 +354,88 @@ struct Sys {
 		bool eq = mx == my;
 		int d1 = LIB(mpt::mpt_identifier_inequal(x.id, y.id)), d2 = LIB(mpt::mpt_identifier_inequal(y.id, x.id));
 		if ((d1 == 0) != eq || (d2 == 0) != eq) return fmt("compare\tinequal(%s)=%d, reversed=%d but the contents are %s", who, d1, d2, eq ? "equal" : "different");
-		tally(eq ? "inequal:equal" : "inequal:different");
+		++tally->c[eq ? C_INEQ_EQ : C_INEQ_NE];
 		return "";
 	}
-	// complete observation of the current state
-	std::string full()
+	// complete observation of the current state (comparison sweep only for the identifiers named)
+	std::string full(bool sweepA = true, bool sweepB = true)
 	{
 		std::string e = memcheck(); if (!e.empty()) return e;
 		e = light(a, ma, "A"); if (!e.empty()) return e;
 		e = light(b, mb, "B"); if (!e.empty()) return e;
-		e = compares(a, ma, "A"); if (!e.empty()) return e;
-		e = compares(b, mb, "B"); if (!e.empty()) return e;
-		return pair_compare(a, ma, b, mb, "A,B");
+		if (sweepA) { e = compares(a, ma, "A"); if (!e.empty()) return e; }
+		if (sweepB) { e = compares(b, mb, "B"); if (!e.empty()) return e; }
+		return (sweepA || sweepB) ? pair_compare(a, ma, b, mb, "A,B") : std::string();
 	}
 
 	// classification of an op instance in the current state: "opname|pre->post|argclass"
 	std::string classify(const Alphabet &al, const OpInst &op) const
 	{
-		const char *pre = stclass(ma, a.cap);
-		std::string name;
+		const char *pre = stclass(ma.size(), a.cap);
 		size_t n = 0, cap = a.cap; bool refuse = false;
 		switch (op.t) {
-		case SET: n = al.contents[op.a].len + 1; name = "set"; break;
-		case SETZ: n = op.a + 1; name = "set(strlen)"; break;
-		case SETNUL: n = op.a + 1; name = "set(embedded NUL)"; break;
-		case SETOVER: name = "set(over-long)"; refuse = true; break;
-		case SETNULL: n = op.a; name = "set(NULL,n)"; refuse = op.a > 65535; break;
-		case COPY_AB: n = mb.b.size(); name = "copy"; break;
-		case ASSIGN_AB: n = mb.b.size(); name = "operator="; break;
-		case COPY_BA: n = ma.b.size(); name = "copy"; pre = stclass(mb, b.cap); cap = b.cap; break;
-		case COPY_AA: n = ma.b.size(); name = "copy(self)"; break;
-		case COPY_ANULL: n = 0; name = "copy(NULL)"; break;
-		case SELF: name = "set(own data)"; n = ma.b.size() ? (op.a == 0 ? ma.b.size() - 1 : (op.a == 1 ? 2 : ma.b.size())) : 0; break;
-		case CLONE_TRAITS: name = "traits-init(copy)"; n = ma.b.size(); pre = "fresh16"; cap = 12; break;
-		case CLONE_CXX: name = "copy-constructor"; n = ma.b.size(); pre = "fresh16"; cap = 12; break;
+		case SET: n = al.contents[op.a].len + 1; break;
+		case SETZ: case SETNUL: n = op.a + 1; break;
+		case SETOVER: refuse = true; break;
+		case SETNULL: n = op.a; refuse = op.a > 65535; break;
+		case COPY_AB: case ASSIGN_AB: n = mb.size(); break;
+		case COPY_BA: n = ma.size(); pre = stclass(mb.size(), b.cap); cap = b.cap; break;
+		case COPY_AA: n = ma.size(); break;
+		case COPY_ANULL: n = 0; break;
+		case SELF: n = ma.size() ? (op.a == 0 ? ma.size() - 1 : (op.a == 1 ? 2 : ma.size())) : 0; break;
+		case CLONE_TRAITS: case CLONE_CXX: n = ma.size(); pre = "fresh16"; cap = 12; break;
 		}
-		std::string post = refuse ? "refused" : (n == 0 ? "unset" : (n <= cap ? "inline" : "ext"));
-		return name + "|" + pre + "->" + post + "|" + (refuse ? "over-long" : lencls(n, cap));
+		const char *post = refuse ? "refused" : stclass(n, cap);
+		return std::string(opname[op.t]) + "|" + pre + "->" + post + "|" + (refuse ? "over-long" : lencls(n, cap));
 	}
 
+	void set_model(const Alphabet &al, M &m, int cs, int fam, size_t len)
+	{
+		m.cs = cs; m.b = &bytes(fam, len).stored;
+		m.cid = fam == FZ ? (len ? -1 : 0) : al.find(fam, len);
+		if (fam == FZ && !len) m.b = &empty_bytes;
+	}
 	// execute one op instance on implementation + model, memory oracle, bystanders untouched, destination read back
 	std::string apply(const Alphabet &al, const OpInst &op)
 	{
 		asan_error();
 		std::string e;
 		bool destA = true, destB = false;
-		std::string imgA, imgB;
+		uint64_t imgA = 0, imgB = 0;
 		if (op.t == COPY_BA) { destA = false; destB = true; }
 		if (op.t == COPY_AA || op.t == CLONE_TRAITS || op.t == CLONE_CXX) destA = false;
-		if (!destA) imgA = rawimage(a.id);
-		if (!destB) imgB = rawimage(b.id);
+		if (!destA) imgA = image(a.id);
+		if (!destB) imgB = image(b.id);
 		switch (op.t) {
 		case SET: case SETZ: case SETNUL: case SETOVER: {
-			std::string s; int len; bool permitted = true;
-			if (op.t == SET) { s = text(al.contents[op.a].len, al.contents[op.a].variant); len = (int) s.size(); }
-			else if (op.t == SETZ) { s = text(op.a, 0); len = -1; }
-			else if (op.t == SETNUL) { s = text(op.a, 2); len = (int) s.size(); }
-			else { permitted = false; s = text(op.a == 2 ? 70000 : 65535, 0); len = op.a == 1 ? -1 : (int) s.size(); }
-			char *buf = (char *) malloc(s.size() + (len < 0 ? 1 : 0) + (s.empty() && len >= 0 ? 1 : 0));
-			memcpy(buf, s.data(), s.size()); if (len < 0) buf[s.size()] = 0;
+			int fam = FP; size_t tl; int len; bool permitted = true;
+			if (op.t == SET) { fam = al.contents[op.a].fam; tl = al.contents[op.a].len; len = (int) tl; }
+			else if (op.t == SETZ) { tl = op.a; len = -1; }
+			else if (op.t == SETNUL) { fam = FN; tl = op.a; len = (int) tl; }
+			else { permitted = false; tl = op.a == 2 ? 70000 : 65535; len = op.a == 1 ? -1 : (int) tl; }
+			const Bytes &bt = bytes(fam, tl);
 			void *ret;
+			const char *arg = bt.arg;
+			char *tmp = 0;
+			if (len < 0) { tmp = (char *) malloc(tl + 1); memcpy(tmp, bt.stored.data(), tl + 1); arg = tmp; }      // strlen form needs the terminator
 			if (op.t == SETOVER && op.a == 3) { ret = LIB(mpt::mpt_identifier_set(a.id, 0, -1)); }     // negative length without text
-			else if (a.kind >= CXX16 && a.kind <= ITEM32) { bool okc = LIB(a.id->set_name(buf, len)); ret = okc ? (void *) a.id : 0; tally("via identifier::set_name"); }
-			else ret = LIB(mpt::mpt_identifier_set(a.id, buf, len));
-			free(buf);
+			else if (a.kind >= CXX16 && a.kind <= ITEM32) { bool okc = LIB(a.id->set_name(arg, len)); ret = okc ? (void *) a.id : 0; ++tally->c[C_SETNAME]; }
+			else ret = LIB(mpt::mpt_identifier_set(a.id, arg, len));
+			free(tmp);
 			if (permitted) {
 				if (!ret) e = "refused\ta text of permitted length was refused";
-				else { ma.cs = UTF8; ma.b = s; ma.b.push_back(0); }
+				else set_model(al, ma, UTF8, fam, tl);
 			} else {
 				if (ret) e = "accepted\tover-long / negative length was not refused";
-				tally("refused:over-long");
+				++tally->c[C_REFUSED];
 			}
 			break; }
 		case SETNULL: {
 			void *ret = LIB(mpt::mpt_identifier_set(a.id, 0, (int) op.a));
 			if (op.a <= 65535) {
 				if (!ret) e = "refused\tset(NULL,n) with a permitted length was refused";
-				else { ma.cs = 0; ma.b.assign((size_t) op.a, 0); }
-			} else { if (ret) e = "accepted\tover-long non-text length was not refused"; tally("refused:over-long"); }
+				else set_model(al, ma, 0, FZ, (size_t) op.a);
+			} else { if (ret) e = "accepted\tover-long non-text length was not refused"; ++tally->c[C_REFUSED]; }
 			break; }
 		case COPY_AB: case ASSIGN_AB: {
 			void *ret;
@@ -417,15 +456,20 @@ struct Sys {
 		case COPY_ANULL: {
 			void *ret = LIB(mpt::mpt_identifier_copy(a.id, 0));
 			if (!ret) e = "refused\tcopy(NULL) failed";
-			else { ma.cs = 0; ma.b.clear(); }
+			else ma = M();
 			break; }
 		case SELF: {
-			size_t len = ma.b.size() - 1, nl = op.a == 0 ? len - 1 : (op.a == 1 ? 1 : len);
+			size_t len = ma.size() - 1, nl = op.a == 0 ? len - 1 : (op.a == 1 ? 1 : len);
 			const char *own = (const char *) LIB(mpt::mpt_identifier_data(a.id));
 			void *ret = LIB(mpt::mpt_identifier_set(a.id, own, (int) nl));
 			if (!ret) e = "refused\tsetting an identifier to a prefix of its own text was refused";
-			else { ma.b.resize(nl); ma.b.push_back(0); }
-			tally("set:own data");
+			else if (nl != len) {
+				// prefix of the old text: P(nl) unless the embedded NUL of an N text survives
+				std::string want(*ma.b, 0, nl); want.push_back(0);
+				if (want == bytes(FP, nl).stored) set_model(al, ma, UTF8, FP, nl);
+				else { static std::set<std::string> other; ma.b = &*other.insert(want).first; ma.cid = -1; }
+			}
+			++tally->c[C_OWN];
 			break; }
 		case CLONE_TRAITS: case CLONE_CXX: {
 			H th; size_t extra = 0;
@@ -436,13 +480,13 @@ struct Sys {
 				int rc = LIB(t->init(mem, a.id));
 				th.kind = TRAITS; th.obj = mem; th.id = (mpt::identifier *) mem;
 				if (rc < 0) e = fmt("status\ttraits init(copy) reports error %d although the copy was made", rc);
-				tally("clone:traits");
+				++tally->c[C_CLONE_T];
 			} else {
 				th.kind = CXX16; th.id = LIB(new mpt::identifier(*a.id)); th.obj = th.id; extra = 1;
-				tally("clone:c++");
+				++tally->c[C_CLONE_X];
 			}
 			th.cap = th.id->_max;
-			extra += ma.b.size() > th.cap;
+			extra += ma.size() > th.cap;
 			std::string m = memcheck(extra);
 			if (!m.empty()) return m;
 			if (!e.empty()) return e;
@@ -457,8 +501,8 @@ struct Sys {
 		if (!m.empty()) return m;
 		if (!e.empty()) return e;
 		const char *who = (op.t == COPY_AB || op.t == ASSIGN_AB || op.t == COPY_BA || op.t >= CLONE_TRAITS) ? "source" : "bystander";
-		if (!destA && rawimage(a.id) != imgA) return fmt("%s\tA was changed although it is only the %s of this operation", who, op.t == COPY_AA ? "target of a self copy" : "source");
-		if (!destB && rawimage(b.id) != imgB) return fmt("%s\tB was changed although it is %s", who, who[0] == 's' ? "only the source of this operation" : "not involved in this operation");
+		if (!destA && image(a.id) != imgA) return fmt("%s\tA was changed although it is only the %s of this operation", who, op.t == COPY_AA ? "target of a self copy" : "source");
+		if (!destB && image(b.id) != imgB) return fmt("%s\tB was changed although it is %s", who, who[0] == 's' ? "only the source of this operation" : "not involved in this operation");
 		e = light(a, ma, "A"); if (!e.empty()) return e;
 		return light(b, mb, "B");
 	}
@@ -467,7 +511,7 @@ struct Sys {
 static std::string opdesc(const Alphabet &al, const OpInst &op)
 {
 	switch (op.t) {
-	case SET: return fmt("set(A, %s(%zu), %zu)", al.contents[op.a].variant ? "Q" : "P", al.contents[op.a].len, al.contents[op.a].len);
+	case SET: return fmt("set(A, %s(%zu), %zu)", al.contents[op.a].fam == FQ ? "Q" : "P", al.contents[op.a].len, al.contents[op.a].len);
 	case SETZ: return fmt("set(A, P(%ld), -1)", op.a);
 	case SETNUL: return fmt("set(A, N(%ld) with embedded NUL, %ld)", op.a, op.a);
 	case SETOVER: return op.a == 0 ? "set(A, P(65535), 65535)" : (op.a == 1 ? "set(A, P(65535), -1)" : (op.a == 2 ? "set(A, P(70000), 70000)" : "set(A, NULL, -1)"));
@@ -485,27 +529,25 @@ static std::string opdesc(const Alphabet &al, const OpInst &op)
 }
 static std::string mdesc(const M &m, size_t cap)
 {
-	if (m.b.empty()) return "unset";
-	return fmt("%s %zu bytes%s", m.cs == UTF8 ? "text," : "non-text,", m.b.size(), m.b.size() > cap ? " (external)" : " (inline)");
+	if (!m.size()) return "unset";
+	return fmt("%s %zu bytes%s", m.cs == UTF8 ? "text," : "non-text,", m.size(), m.size() > cap ? " (external)" : " (inline)");
 }
-static std::string cdesc(const Content &c) { return c.unset ? std::string("unset") : fmt("%s(%zu)", c.variant ? "Q" : "P", c.len); }
+static std::string cdesc(const Content &c) { return c.unset ? std::string("unset") : fmt("%s(%zu)", c.fam == FQ ? "Q" : "P", c.len); }
 
 // ------------------------------------------------------------------ exploration of one storage pair
 struct PairJob {
-	int ka, kb; Alphabet al;
+	int ka, kb; Alphabet al; Tally tally;
 	uint64_t nontrivial, execs;
 	PairJob() : nontrivial(0), execs(0) {}
 };
 
-static bool set_content(H &h, M &m, const Content &c)
+static bool set_content(const Alphabet &al, H &h, M &m, int cid)
 {
-	if (c.unset) return true;
-	std::string t = text(c.len, c.variant);
-	char *buf = (char *) malloc(t.size() ? t.size() : 1); memcpy(buf, t.data(), t.size());
-	void *ret = LIB(mpt::mpt_identifier_set(h.id, buf, (int) t.size()));
-	free(buf);
+	if (!cid) return true;
+	const Bytes &bt = bytes(al.contents[cid].fam, al.contents[cid].len);
+	void *ret = LIB(mpt::mpt_identifier_set(h.id, bt.arg, (int) bt.arglen));
 	if (!ret) return false;
-	m = model_of(c);
+	m = model_of(al, cid);
 	return true;
 }
 static void prepare(Run &r, PairJob &pj, const std::string &job)
@@ -517,12 +559,12 @@ static void prepare(Run &r, PairJob &pj, const std::string &job)
 	H ha, hb; make(ha, pj.ka); make(hb, pj.kb);
 	build_alphabet(r.tier, ha.cap, hb.cap, pj.al);
 	destroy(ha); destroy(hb);
-	// raw images of all initial states (real code: fresh storage + one set)
+	// images of all initial states (real code: fresh storage + one set)
 	r.hint("initial state construction");
-	for (int side = 0; side < 2; ++side) for (const Content &c : pj.al.contents) {
+	for (int side = 0; side < 2; ++side) for (size_t c = 0; c < pj.al.contents.size(); ++c) {
 		H h; M m; make(h, side ? pj.kb : pj.ka);
-		set_content(h, m, c);
-		(side ? pj.al.knownB : pj.al.knownA).insert(rawimage(h.id));
+		set_content(pj.al, h, m, (int) c);
+		(side ? pj.al.knownB : pj.al.knownA).push_back(image(h.id));
 		destroy(h);
 	}
 	ledger_reset(); nlibblk = 0;
@@ -542,66 +584,77 @@ static void pair_body(Run &r, PairJob &pj, Ctx &x)
 	const Alphabet &al = pj.al;
 	size_t ia = x.choose(al.contents.size()), ib = x.choose(al.contents.size());
 	size_t oi = x.choose(al.ops.size());
-	if ((++pj.execs & 1023) == 0) ledger_reset();
+	if ((++pj.execs & 1023) == 0) { ledger_reset(); pj.tally.flush(r); }
 	nlibblk = 0;
-	Sys s;
+	Sys s(&pj.tally);
 	r.hint("storage creation");
 	if (!s.init(pj.ka, pj.kb)) { r.violation(std::string("create|") + kname[pj.ka] + "|failed", "storage could not be created"); return; }
-	std::string where = fmt("A=%s(cap %zu) B=%s(cap %zu): A:=%s B:=%s", kname[pj.ka], s.a.cap, kname[pj.kb], s.b.cap, cdesc(al.contents[ia]).c_str(), cdesc(al.contents[ib]).c_str());
+	std::vector<size_t> done;      // op instances executed so far
+	auto where = [&]() {
+		std::string w = fmt("A=%s(cap %zu) B=%s(cap %zu): A:=%s B:=%s", kname[pj.ka], s.a.cap, kname[pj.kb], s.b.cap, cdesc(al.contents[ia]).c_str(), cdesc(al.contents[ib]).c_str());
+		for (size_t o : done) w += " ; " + opdesc(al, al.ops[o]);
+		return w; };
 	r.hint("initial set");
 	asan_error();
 	for (int side = 0; side < 2; ++side) {
-		const Content &c = al.contents[side ? ib : ia];
+		int cid = (int) (side ? ib : ia);
 		H &h = side ? s.b : s.a; M &m = side ? s.mb : s.ma;
 		bool okset = false;
-		std::string e = guarded([&]() { okset = set_content(h, m, c); return std::string(); });
+		std::string e = guarded([&]() { okset = set_content(al, h, m, cid); return std::string(); });
 		if (e.empty() && !okset) e = "refused\ta text of permitted length was refused";
 		if (e.empty()) e = guarded([&]() { std::string t = s.memcheck(); return t.empty() ? s.light(h, m, side ? "B" : "A") : t; });
-		if (!e.empty()) { M want = model_of(c); report(r, std::string("set|unset->") + stclass(want, h.cap) + "|" + lencls(want.b.size(), h.cap), e, where + (side ? " (setting B)" : " (setting A)")); return; }
+		if (!e.empty()) { size_t n = model_of(al, cid).size(); report(r, std::string("set|unset->") + stclass(n, h.cap) + "|" + lencls(n, h.cap), e, where() + (side ? " (setting B)" : " (setting A)")); return; }
 	}
 	if (oi == 0) {
 		// first visit of this initial state: complete observation
 		++r.states;
-		if (ia == 4 && ib == al.contents.size() - 1) r.sample(where + " x {" + std::to_string(al.ops.size()) + " op instances}");
+		if (ia == 4 && ib == al.contents.size() - 1) r.sample(where() + " x {" + std::to_string(al.ops.size()) + " op instances}");
 		std::string e = guarded([&]() { return s.full(); });
-		if (!e.empty()) { report(r, "set|initial-state", e, where); return; }
+		if (!e.empty()) { report(r, "set|initial-state", e, where()); return; }
 	}
-	bool last_nontrivial = false;
+	bool last_nontrivial = false, dirtyA = false, dirtyB = false;
 	for (int depth = 1;; ++depth) {
 		const OpInst &op = al.ops[oi];
-		if (op.t == SELF && (s.ma.cs != UTF8 || s.ma.b.size() < 2)) { r.count("op not enabled in this state"); break; }
-		std::string cls = s.classify(al, op);
-		std::string step = where + " ; " + opdesc(al, op) + fmt(" [A %s, B %s]", mdesc(s.ma, s.a.cap).c_str(), mdesc(s.mb, s.b.cap).c_str());
-		where += " ; " + opdesc(al, op);
-		r.note("%s", step.c_str());
-		std::string preA = stclass(s.ma, s.a.cap);
+		if (op.t == SELF && (s.ma.cs != UTF8 || s.ma.size() < 2)) { ++pj.tally.c[C_NOT_ENABLED]; break; }
+		std::string pre;
+		if (r.replaying) { pre = fmt(" [A %s, B %s]", mdesc(s.ma, s.a.cap).c_str(), mdesc(s.mb, s.b.cap).c_str()); r.note("%s ; %s%s", where().c_str(), opdesc(al, op).c_str(), pre.c_str()); }
+		std::string cls = s.classify(al, op);        // state class before the op
+		int preA = clsidx(s.ma.size(), s.a.cap);
 		r.hint(cls.c_str());
+		done.push_back(oi);
 		std::string res = guarded([&]() { return s.apply(al, op); });
 		++r.transitions;
-		if (!res.empty()) { report(r, cls, res, step); return; }
+		if (!res.empty()) { report(r, cls, res, where()); return; }
 		{
-			std::string postA = stclass(s.ma, s.a.cap);
+			int postA = clsidx(s.ma.size(), s.a.cap);
 			bool replaces = op.t == SET || op.t == SETZ || op.t == SETNUL || (op.t == SETNULL && op.a <= 65535) || op.t == COPY_AB || op.t == ASSIGN_AB || op.t == SELF;
-			last_nontrivial = (preA == "ext") != (postA == "ext") || (preA == "ext" && postA == "ext" && replaces);
-			const char *fam = op.t <= SETNULL || op.t == SELF ? "set" : (op.t <= ASSIGN_AB ? "copy" : "clone");
-			if (op.t != COPY_BA && fam[1] != 'l') r.count(std::string("path ") + fam + ":" + preA + "->" + postA);
-			if (s.ma.b.size() == 65535) r.count("path stored the longest permitted content (65535 bytes)");
+			last_nontrivial = (preA == 2) != (postA == 2) || (preA == 2 && postA == 2 && replaces);
+			if (op.t <= SETNULL || op.t == SELF) ++pj.tally.path[0][preA][postA];
+			else if (op.t <= ASSIGN_AB && op.t != COPY_BA) ++pj.tally.path[1][preA][postA];
+			if (s.ma.size() == 65535) ++pj.tally.c[C_LONGEST];
 		}
-		// states that are initial states are explored from there; others are expanded here
-		bool known = al.knownA.count(rawimage(s.a.id)) && al.knownB.count(rawimage(s.b.id));
+		// states that are initial states are explored from there; others are expanded here.  (light() has just compared the
+		// complete content with the model, so image + content index identify the state.)
+		bool knownA = s.ma.cid >= 0 && image(s.a.id) == al.knownA[s.ma.cid], knownB = s.mb.cid >= 0 && image(s.b.id) == al.knownB[s.mb.cid];
+		bool known = knownA && knownB;
+		if (op.t == COPY_BA) dirtyB = true; else if (op.t != COPY_AA && op.t < CLONE_TRAITS) dirtyA = true;
 		bool expand = !known && depth < DEPTH;
-		if (!known && !expand) r.count("new states at the depth bound (not expanded)");
+		if (!known && !expand) ++pj.tally.c[C_NEW_BOUND];
 		if (expand) {
-			r.note("  state is not an initial state: A %s | B %s", imgdesc(s.a.id).c_str(), imgdesc(s.b.id).c_str());
+			if (r.replaying) r.note("  state is not an initial state: A %s | B %s", imgdesc(s.a.id).c_str(), imgdesc(s.b.id).c_str());
 			oi = x.choose(al.ops.size());
-			if (oi == 0) { ++r.states; r.count("states beyond the initial ones (expanded)"); }
+			if (oi == 0) { ++r.states; ++pj.tally.c[C_EXPANDED]; }
 		}
 		if (!known && (!expand || oi == 0)) {
-			// complete observation of the state just reached (once per state).  A post-state whose raw image equals an initial
+			// complete observation of the state just reached (once per state).  A post-state whose image equals an initial
 			// state has been read back byte-exact above; the comparison functions depend on nothing but that image and were
 			// observed completely on the initial state itself.
-			std::string e = guarded([&]() { return s.full(); });
-			if (!e.empty()) { report(r, cls, e, step); return; }
+			// An identifier that no operation wrote to since its last sweep is not swept again.
+			bool sa = dirtyA && !knownA, sb = dirtyB && !knownB;
+			std::string e = guarded([&]() { return s.full(sa, sb); });
+			if (!e.empty()) { report(r, cls, e, where()); return; }
+			if (sa) dirtyA = false;
+			if (sb) dirtyB = false;
 		}
 		if (!expand) break;
 	}
@@ -611,12 +664,11 @@ static void pair_body(Run &r, PairJob &pj, Ctx &x)
 	std::string e = guarded([&]() { s.fini(); return std::string(); });
 	if (e.empty() && asan_error()) e = "memory\tAddressSanitizer report while releasing the identifiers";
 	if (e.empty() && ledger_live() != s.l0) e = fmt("memory\t%zu library allocations left after release", ledger_live() - s.l0);
-	if (!e.empty()) { report(r, "release", e, where); return; }
-	for (auto &c : s.tally.c) r.count(c.first, c.second);
+	if (!e.empty()) { report(r, "release", e, where()); return; }
 }
 
 // ------------------------------------------------------------------ allocation job: requested length -> storage
-static void alloc_body(Run &r, Ctx &x, uint64_t &nontrivial)
+static void alloc_body(Run &r, Ctx &x, uint64_t &nontrivial, Tally &tally)
 {
 	guard_install();
 	int fam = (int) x.choose(4);
@@ -634,7 +686,9 @@ static void alloc_body(Run &r, Ctx &x, uint64_t &nontrivial)
 	r.note("%s", where.c_str());
 	r.hint(fn[fam]);
 	asan_error();
-	Sys s; s.ma.cs = s.mb.cs = 0;
+	Alphabet al;
+	al.contents.push_back(Content{true, 0, FP});
+	Sys s(&tally);
 	s.l0 = ledger_live();
 	H h;
 	std::string sig = std::string(fn[fam]) + "|";
@@ -643,26 +697,23 @@ static void alloc_body(Run &r, Ctx &x, uint64_t &nontrivial)
 		if (len > 65535) { if (h.id) { r.violation(sig + "over-long|accepted", where + ": length above the 65535 limit was not refused"); free(h.id); } else r.count("refused:alloc over-long"); return; }
 	} else if (fam == 1) { h.kind = NODE64; h.node = LIB(mpt::mpt_node_new(len)); h.obj = h.node; h.id = h.node ? &h.node->ident : 0; }
 	else if (fam == 2) {
-		std::string t = text(len, 0);
-		char *buf = (char *) malloc(len ? len : 1); memcpy(buf, t.data(), len);
-		h.kind = CXXNODE; h.node = LIB(mpt::node::create(buf, (int) len)); h.obj = h.node; h.id = h.node ? &h.node->ident : 0;
-		free(buf);
-		if (h.id) { s.ma.cs = UTF8; s.ma.b = t; s.ma.b.push_back(0); }
+		const Bytes &bt = bytes(FP, len);
+		h.kind = CXXNODE; h.node = LIB(mpt::node::create(bt.arg, (int) len)); h.obj = h.node; h.id = h.node ? &h.node->ident : 0;
+		if (h.id) s.set_model(al, s.ma, UTF8, FP, len);
 	} else { if (!make(h, TRAITS)) { r.violation(sig + "status", "traits init without source reports an error"); return; } }
 	if (!h.id) { r.violation(sig + "failed", where + ": no storage returned"); return; }
 	h.cap = h.id->_max;
-	s.base = ledger_live() - s.l0 - (s.ma.b.size() > h.cap);
+	s.base = ledger_live() - s.l0 - (s.ma.size() > h.cap);
 	s.a = h;
 	{ size_t l1 = ledger_live(); make(s.b, EMB16); s.base += ledger_live() - l1; }
 	std::string e = guarded([&]() { return s.full(); });
 	if (fam <= 1) { if (len <= 252 && h.cap >= (size_t) len) r.count("alloc: inline capacity >= requested length"); else r.count("alloc: inline capacity < requested length (not flagged)"); }
-	// fill the inline bytes completely, then go external, then clear
-	Alphabet al;
+	// fill the inline bytes completely, then go external, then the empty text, then clear
 	for (long l : {(long) h.cap - 1, (long) h.cap, 0L}) {
 		if (!e.empty()) break;
-		al.contents.assign(1, Content{false, (size_t) l, 0});
+		al.contents.resize(1); al.contents.push_back(Content{false, (size_t) l, FP});
 		r.hint((std::string(fn[fam]) + " then set").c_str());
-		e = guarded([&]() { std::string t = s.apply(al, OpInst{SET, 0}); return t.empty() ? s.full() : t; });
+		e = guarded([&]() { std::string t = s.apply(al, OpInst{SET, 1}); return t.empty() ? s.full() : t; });
 		++r.transitions;
 	}
 	if (e.empty()) e = guarded([&]() { std::string t = s.apply(al, OpInst{COPY_ANULL, 0}); return t.empty() ? s.full() : t; });
@@ -672,15 +723,15 @@ static void alloc_body(Run &r, Ctx &x, uint64_t &nontrivial)
 	e = guarded([&]() { s.fini(); return std::string(); });
 	if (e.empty() && (asan_error() || ledger_live() != s.l0)) e = "memory\tallocation left or invalid access while releasing";
 	if (!e.empty()) { report(r, "release", e, where); return; }
-	for (auto &c : s.tally.c) r.count(c.first, c.second);
 }
 
 // ------------------------------------------------------------------ jobs
 void mc_jobs(Tier t, std::vector<std::string> &jobs)
 {
 	std::vector<int> bk;
+	// A runs through every storage kind; B (source / second target of copies) through one storage per distinct inline capacity
 	if (t == Quick) bk = { EMB16, NEW64, NEW256, ITEM32 };
-	else for (int k = 0; k < NKINDS; ++k) bk.push_back(k);
+	else bk = { EMB16, ITEM32, NEW32, NEW64, CXXNODE, NEW128, NODE256, NEW256 };
 	for (int a = 0; a < NKINDS; ++a) for (int b : bk) jobs.push_back(std::string("A=") + kname[a] + ",B=" + kname[b]);
 	jobs.push_back("alloc");
 	if (getenv("C16_DEV_JOBS")) { std::vector<std::string> f; for (auto &j : jobs) if (j.find(getenv("C16_DEV_JOBS")) != std::string::npos) f.push_back(j); jobs = f; }
@@ -701,8 +752,9 @@ void mc_explore(Run &r, const std::string &job)
 {
 	if (job == "alloc") {
 		declare(r, false);
-		uint64_t nt = 0;
-		dfs(r, [&](Ctx &x) { alloc_body(r, x, nt); });
+		uint64_t nt = 0; Tally tally;
+		dfs(r, [&](Ctx &x) { alloc_body(r, x, nt, tally); });
+		tally.flush(r);
 		r.count("nontrivial", nt);
 		return;
 	}
@@ -710,12 +762,13 @@ void mc_explore(Run &r, const std::string &job)
 	PairJob pj;
 	prepare(r, pj, job);
 	dfs(r, [&](Ctx &x) { pair_body(r, pj, x); });
+	pj.tally.flush(r);
 	r.count("nontrivial", pj.nontrivial);
 }
 
 void mc_replay(Run &r, const std::string &job, const Vec &v)
 {
-	if (job == "alloc") { uint64_t nt = 0; dfs_replay(r, [&](Ctx &x) { alloc_body(r, x, nt); }, v); return; }
+	if (job == "alloc") { uint64_t nt = 0; Tally tally; dfs_replay(r, [&](Ctx &x) { alloc_body(r, x, nt, tally); }, v); return; }
 	PairJob pj;
 	prepare(r, pj, job);
 	dfs_replay(r, [&](Ctx &x) { pair_body(r, pj, x); }, v);
